@@ -81,7 +81,7 @@ fn main() {
                     "store" => d.store_ev(a as usize),
                     "remove" => (d.remove(a as usize), -1),
                     "vanish" => (d.vanish(a as usize), -1),
-                    "reopen" => (d.reopen(), -1),
+                    "reopen" => (d.reopen_mode(a == 0), -1), // a = 0: cold (environment closed), 1: warm
                     "rebuild" => (d.rebuild(), -1),
                     "xput" => {
                         let key = op["key"].as_str().unwrap_or("");
@@ -104,6 +104,7 @@ fn main() {
             };
             emit(&mut out, &d, k, a, &res, off, x);
         }
+        d.close();
         drop(d);
         drop(td);
     }
